@@ -57,6 +57,7 @@ DNS_COMPRESSION_HEADER_LEN = 1
 DNS_COMPRESSION_POINTER_LEN = 2
 MAX_DNS_LABELS = 128
 MAX_NAME_LENGTH = 253
+MAX_LABEL_LENGTH = 63
 
 DECODE_EXCEPTIONS = (IndexError, struct.error, IncomingDecodeError)
 
@@ -401,7 +402,14 @@ class DNSIncoming:
 
             if length < 0x40:
                 label_idx = off + DNS_COMPRESSION_HEADER_LEN
-                labels.append(self.data[label_idx : label_idx + length].decode('utf-8', 'replace'))
+                label = self.data[label_idx : label_idx + length].decode('utf-8', 'replace')
+                if not label.isascii() and len(label.encode('utf-8')) > MAX_LABEL_LENGTH:
+                    # Replacement characters made the label longer than a label can be,
+                    # it could never be written back out
+                    raise IncomingDecodeError(
+                        f"DNS label at {off} is not valid utf-8 and too long to re-encode from {self.source}"
+                    )
+                labels.append(label)
                 off += DNS_COMPRESSION_HEADER_LEN + length
                 continue
 
